@@ -122,13 +122,20 @@ def build_lean(targets, log):
         return p.returncode, p.stdout
 
 
+LAST_TRACE = []
+
+
 def run_impl(mode, ops_text, seed=1, timeout=3600):
-    """Returns (answer lines, side lines, crashed?)."""
+    """Returns (answer lines, side lines, crashed?). The actor-turn log of a seq run is left in LAST_TRACE."""
     os.makedirs(os.path.join(CACHE, "tmp"), exist_ok=True)
-    side = os.path.join(CACHE, "tmp", "side.%d.%d" % (os.getpid(), time.time_ns()))
+    side = os.path.join(CACHE, "tmp", "side.%d.%d.%d" % (os.getpid(), time.time_ns(), id(ops_text) % 100000))
     env = dict(ENV, VERIF_SEED=str(seed))
-    p = subprocess.run([DVH, mode, "-", side], input=ops_text, env=env, stdout=subprocess.PIPE,
+    p = subprocess.run([DVH, mode, "-", side, side + ".trace"], input=ops_text, env=env, stdout=subprocess.PIPE,
                        stderr=subprocess.PIPE, text=True, timeout=timeout)
+    del LAST_TRACE[:]
+    if os.path.exists(side + ".trace"):
+        LAST_TRACE.extend(l for l in open(side + ".trace").read().split("\n") if l)
+        os.unlink(side + ".trace")
     out = p.stdout.split("\n")
     if out and out[-1] == "":
         out.pop()
